@@ -428,6 +428,73 @@ def run(prog):
         out.append(inst("PM", "%s:per-literal" % fn.npath, verdict_of(errs), fn, None,
                         errtext(errs) if errs else "true(self) \\ true(other) and false(self) \\ false(other)"))
     out += shared_model_restored(prog)
+    out += insert_only(prog)
+    return out
+
+
+def insert_only(prog):
+    """A mutator of the two-set model that only inserts (no removal from the opposite set) is sound exactly when the
+    variable is not yet assigned.  For every such method (other than `set`, which is checked to retract) every call
+    site must guarantee that: the model was created empty in the caller and the labels are pairwise different by
+    construction (positions of an enumeration).  A caller that feeds it the labels of a literal list can name one
+    variable twice with both polarities, and the variable ends up in both sets (get() says true, the iterator yields
+    both literals)."""
+    out = []
+    fns = [f for f in prog.lib_fns if f.impl_self == PMT and f.kind != "Closure" and f.argc == 3 and "&mut" in f.locals[1]["s"]
+           and "bool" in f.locals[3]["s"] and f.name not in ("set",)]
+    for f in fns:
+        te = f.terms
+        try:
+            bad = False
+            for p in paths(f):
+                for v in (0, 1):
+                    ops = []
+                    for b, lab in p:
+                        for cs in [c for c in te.calls if c.bb == b]:
+                            if cs.callee.name in ("insert", "remove") and cs.args and "VarSet" in cs.callee.key():
+                                w = which_set(resolve(cs.args[0], v))
+                                if w is None:
+                                    raise Und("set operation on %s" % show(cs.args[0])[:40])
+                                ops.append((cs.callee.name, w))
+                    # is this path consistent with value v?
+                    ok_path = True
+                    for b, lab in p:
+                        if lab is not None and b in te.switch_term and strip(te.switch_term[b][0]) == ("param", 3):
+                            targets = [int(x) for x, _ in f.blocks[b]["term"]["targets"]]
+                            val = lab if lab != "otherwise" else (1 - targets[0] if len(targets) == 1 else None)
+                            if val is not None and val != v:
+                                ok_path = False
+                    if not ok_path or not ops:
+                        continue
+                    for s0 in STATES:
+                        s_ = list(s0)
+                        for nm, w in ops:
+                            s_[w] = 1 if nm == "insert" else 0
+                        if tuple(s_) == (1, 1):
+                            bad = True
+        except Und as e:
+            out.append(inst("PM", "%s:insert-only" % f.npath, UNDECIDED, f, None, "not interpretable: %s" % e))
+            continue
+        if not bad:
+            continue
+        # insert-only: look at the callers
+        errs, n_calls = [], 0
+        for g in prog.lib_fns:
+            if "::test" in g.npath or not any(b["term"]["k"] == "call" for b in g.blocks):
+                continue
+            for cs in g.terms.calls:
+                if cs.callee.name != f.name or f not in prog.resolve(cs.callee):
+                    continue
+                n_calls += 1
+                lab = strip(cs.args[1])
+                distinct = (mir.is_call(lab, "new_usize") or mir.is_call(lab, "new")) and "next(" in show(lab) and \
+                    any(x[0] == "field" and x[2] == "0" for x in mir.subterms(lab))
+                if mir.is_call(lab, "label") or not distinct:
+                    errs.append("%s calls the insert-only `%s` with the variable %s: nothing makes these variables pairwise "
+                                "different, and for a variable named twice with both polarities the model ends with it in both "
+                                "sets" % (g.name, f.name, show(lab)[:40]))
+        out.append(inst("PM", "%s:insert-only" % f.npath, VIOLATION if errs else OK, f, None,
+                        errs[0] if errs else "insert-only, and each of its %d call site(s) passes positions of an enumeration" % n_calls))
     return out
 
 
